@@ -77,7 +77,7 @@ def check(ctx):
                  if l != "CHILD-DIED"]
         header = ("From Coq Require Import String.\nFrom SLX Require Import Base gen.ValueSig SymVal VM VmCases.\n"
                   "Open Scope string_scope. Open Scope N_scope.\n")
-        bad = vlib.run_cases(ctx, "vm-bounds", header, terms, per_shard=max(1, len(terms) // 32 + 1), fn="check_c03")
+        bad = vlib.run_cases(ctx, "vm-bounds", header, terms, per_shard=min(120, max(1, len(terms) // 32 + 1)), fn="check_c03")
         disagreements = []
         for idx, code in bad:
             c, cfg = keys[idx]
